@@ -8,6 +8,7 @@ import (
 	"math/rand"
 	"strconv"
 	"strings"
+	"unicode/utf16"
 
 	"github.com/robertkrimen/otto"
 	. "ottoh/lib"
@@ -223,7 +224,7 @@ func intDouble(g *gen) (float64, string) {
 
 // ---------- texts ----------
 
-var wsRunes = []rune{' ', '\t', '\n', '\v', '\f', '\r', 0xA0, 0x1680, 0x2000, 0x2003, 0x200A, 0x2028, 0x2029, 0x202F, 0x205F, 0x3000, 0xFEFF}
+var wsRunes = []rune{' ', '\t', '\n', '\v', '\f', '\r', 0xA0, 0x1680, 0x2000, 0x2001, 0x2002, 0x2003, 0x2004, 0x2005, 0x2006, 0x2007, 0x2008, 0x2009, 0x200A, 0x2028, 0x2029, 0x202F, 0x205F, 0x3000, 0xFEFF}
 
 func (g *gen) ws() string {
 	r := g.r
@@ -474,6 +475,170 @@ func (g *gen) overflowText(junk bool) string {
 	return body
 }
 
+func showUnits(u []uint16) string {
+	var b strings.Builder
+	b.WriteByte('"')
+	for _, c := range u {
+		if c >= 0x20 && c < 0x7f && c != '"' && c != '\\' {
+			b.WriteByte(byte(c))
+		} else {
+			fmt.Fprintf(&b, "\\u%04x", c)
+		}
+	}
+	b.WriteByte('"')
+	return b.String()
+}
+
+func codeList(u []uint16) string {
+	parts := make([]string, len(u))
+	for i, c := range u {
+		parts[i] = strconv.Itoa(int(c))
+	}
+	return strings.Join(parts, ",")
+}
+
+// bind s to the string with exactly these UTF-16 code units, through one of the ways a script or
+// the host can make a string: host Go string, literal, String.fromCharCode (otto's []uint16
+// representation), concatenations of both kinds, a charAt-rebuilt copy.  The binding is verified
+// unit by unit inside the script; if a route cannot carry the text, fromCharCode is used.
+func (g *gen) setS(u []uint16) string {
+	r := g.r
+	hasSurrogate, nonASCII := false, false
+	for _, c := range u {
+		if c >= 0xD800 && c <= 0xDFFF {
+			hasSurrogate = true
+		}
+		if c >= 0x80 {
+			nonASCII = true
+		}
+	}
+	route := r.Intn(10)
+	if nonASCII && r.Intn(2) == 0 {
+		route = 4 + r.Intn(6)
+	}
+	if len(u) == 0 || (hasSurrogate && route < 4) {
+		if len(u) == 0 {
+			route = 0
+		} else {
+			route = 4
+		}
+	}
+	how := ""
+	switch {
+	case route < 3:
+		Must(g.vm.Set("s", string(utf16.Decode(u))))
+		how = "host string"
+	case route == 3:
+		RunJS(g.vm, "var s = "+JSStr(u)+";")
+		how = "literal"
+	case route < 7:
+		RunJS(g.vm, "var s = String.fromCharCode("+codeList(u)+");")
+		how = "fromCharCode"
+	case route == 7:
+		k := r.Intn(len(u) + 1)
+		RunJS(g.vm, "var s = String.fromCharCode("+codeList(u[:k])+") + String.fromCharCode("+codeList(u[k:])+");")
+		how = "fromCharCode+fromCharCode"
+	case route == 8:
+		k := r.Intn(len(u) + 1)
+		if hasSurrogate {
+			k = len(u)
+		}
+		RunJS(g.vm, "var s = String.fromCharCode("+codeList(u[:k])+") + "+JSStr(u[k:])+";")
+		how = "fromCharCode+literal"
+	default:
+		RunJS(g.vm, "var t = String.fromCharCode("+codeList(u)+"); var s = ''; for (var i = 0; i < t.length; i++) { s += t.charAt(i); }")
+		how = "charAt copy of fromCharCode"
+	}
+	if !g.boolRes("(function(){var c = ["+codeList(u)+"]; if (typeof s !== 'string' || s.length !== c.length) return false; for (var i = 0; i < c.length; i++) { if (s.charCodeAt(i) !== c[i]) return false; } return true})()") {
+		RunJS(g.vm, "var s = String.fromCharCode("+codeList(u)+");")
+		how = "fromCharCode (fallback)"
+	}
+	return how
+}
+
+var allWS = []uint16{9, 10, 11, 12, 13, 32, 0xA0, 0x1680, 0x2000, 0x2001, 0x2002, 0x2003, 0x2004, 0x2005, 0x2006, 0x2007, 0x2008, 0x2009, 0x200A, 0x2028, 0x2029, 0x202F, 0x205F, 0x3000, 0xFEFF}
+
+// texts that only exist at the level of code units: a numeral wrapped in each StrWhiteSpaceChar,
+// ASCII numerals with characters replaced by code units that have the same low byte, other
+// scripts' digits, lone surrogates
+func (g *gen) unitText() ([]uint16, string) {
+	r := g.r
+	base := Pick(r, []string{"7", "12", "-1.5", "+3e2", ".5", "0", "-0", "1e3", "0x1f", "Infinity", "-Infinity", "15", "2.50", "1e-7", "9007199254740993", "  42  ", "0.1", "-.5e1", "10", "NaN", ""})
+	if r.Intn(3) == 0 {
+		base = Pick(r, []string{"", "", "-", "+"}) + g.unsignedDecimal()
+	}
+	u := Units(base)
+	switch r.Intn(7) {
+	case 0, 1:
+		// every white space character, on either side
+		pre, post := []uint16{}, []uint16{}
+		for n := r.Intn(3); n >= 0; n-- {
+			pre = append(pre, Pick(r, allWS))
+		}
+		for n := r.Intn(3); n > 0; n-- {
+			post = append(post, Pick(r, allWS))
+		}
+		if r.Intn(3) == 0 {
+			pre = nil
+		}
+		out := append(append(pre, u...), post...)
+		if r.Intn(6) == 0 && len(u) > 1 {
+			// white space inside the numeral is not allowed
+			k := 1 + r.Intn(len(u)-1)
+			out = append(append(append([]uint16{}, u[:k]...), Pick(r, allWS)), u[k:]...)
+			return out, "unit-ws-inside"
+		}
+		return out, "unit-ws"
+	case 2, 3:
+		// same low byte as an ASCII character of the numeral
+		if len(u) == 0 {
+			u = Units("1")
+		}
+		out := append([]uint16{}, u...)
+		for n := r.Intn(2) + 1; n > 0; n-- {
+			i := r.Intn(len(out))
+			hi := uint16(r.Intn(255) + 1)
+			if hi >= 0xD8 && hi <= 0xDF {
+				hi = 0x01
+			}
+			out[i] = out[i]&0xFF | hi<<8
+		}
+		return out, "unit-low-byte-alias"
+	case 4:
+		// digits of other scripts, dotless i, fullwidth signs
+		out := []uint16{}
+		for _, c := range u {
+			switch {
+			case c >= '0' && c <= '9' && r.Intn(2) == 0:
+				out = append(out, Pick(r, []uint16{0xFF10, 0x0660, 0x06F0, 0x0966})+(c-'0'))
+			case c == '1' && r.Intn(2) == 0:
+				out = append(out, 0x0131)
+			case c == '-' && r.Intn(2) == 0:
+				out = append(out, Pick(r, []uint16{0x2212, 0xFF0D, 0x2010}))
+			case c == '.' && r.Intn(2) == 0:
+				out = append(out, Pick(r, []uint16{0xFF0E, 0x2E, 0x062E}))
+			default:
+				out = append(out, c)
+			}
+		}
+		return out, "unit-other-digits"
+	case 5:
+		// lone surrogates and unpaired halves around / inside the numeral
+		sur := Pick(r, []uint16{0xD800, 0xDBFF, 0xDC00, 0xDFFF, 0xD835})
+		k := r.Intn(len(u) + 1)
+		out := append(append(append([]uint16{}, u[:k]...), sur), u[k:]...)
+		if r.Intn(4) == 0 {
+			out = append(out, 0xDC00) // may complete a pair
+		}
+		return out, "unit-surrogate"
+	default:
+		// the aliases named in the wild: U+0131, U+0237 ('7'), U+2E65 ('e'), Infinity shifted by 0x100
+		return Pick(r, [][]uint16{{0x131}, {0x131, 0x232}, {0x237}, {0x3531, 0x2e65, 0x3233}, {0x149, 0x16e, 0x166, 0x169, 0x16e, 0x169, 0x174, 0x179},
+			{0xA0, 0x37, 0xFEFF}, {0x2028, '-', '1', '.', '5', 0x3000}, {0x130}, {0x12d, 0x130}, {0x22e, 0x135}, {0x1680, 0x31, 0x2029}, {0x31, 0x65, 0x135},
+			{0xFF11, 0xFF12}, {0x200B, 0x31}, {0x31, 0x200B}, {0x85, 0x31}, {0x31, 0x180E - 0x180E + 0x2060}, {0x0669}, {0xFEFF}, {0xA0}, {0x3000, 0x3000}}), "unit-named-alias"
+	}
+}
+
 func (g *gen) numberText() (string, string) {
 	r := g.r
 	switch r.Intn(16) {
@@ -538,7 +703,7 @@ func (g *gen) parseIntCase() (string, string, string, string) {
 	effective := radix
 	switch r.Intn(10) {
 	case 0:
-		radixJS, radixCoq, effective = "", "None", 10
+		radixJS, radixCoq, effective = Pick(r, []string{"", "", "undefined", "void 0"}), "None", 10
 	case 1:
 		v := Pick(r, []float64{0, 1, 37, -1, -16, 16.9, 10.5, 4294967312, -4294967280, 4294967296, math.NaN(), math.Inf(1), 2147483648 + 16, 0.5, -0.0})
 		radixJS, radixCoq = JSNum(v), "(Some "+Cdouble(v)+")"
@@ -601,9 +766,52 @@ func (g *gen) parseIntCase() (string, string, string, string) {
 	return g.ws() + body + g.ws(), radixJS, radixCoq, bucket
 }
 
+// decimal integer literals beyond int64 (19 digits and more, no '.' and no exponent): the text of an
+// integral double in [2^63, 1e21) the way ToString prints it, its exact integer value, both
+// neighbours of that value, the midpoints to the adjacent doubles and the integers next to them
+func (g *gen) bigDecimalLiteral() string {
+	r := g.r
+	lo, hi := math.Ldexp(1, 63), 1e21
+	var f float64
+	switch r.Intn(4) {
+	case 0:
+		f = math.Exp(math.Log(lo) + r.Float64()*(math.Log(hi)-math.Log(lo)))
+	case 1:
+		f = nudge(r, Pick(r, []float64{math.Ldexp(1, 63), math.Ldexp(1, 64), math.Ldexp(1, 65), math.Ldexp(1, 66), math.Ldexp(1, 69), 1e19, 1e20, 1e21, 5e20, 123456789012345680000}))
+	default:
+		f = lo + r.Float64()*(Pick(r, []float64{1e19, 1e20, 1e21})-lo)
+	}
+	if f < lo {
+		f = lo
+	}
+	exact := func(x float64) *big.Int { v, _ := new(big.Float).SetFloat64(x).Int(nil); return v }
+	v := exact(f)
+	switch r.Intn(9) {
+	case 0:
+		return strconv.FormatFloat(f, 'f', -1, 64) // shortest digits padded with zeros, as ToString prints below 1e21
+	case 1:
+		return v.String()
+	case 2:
+		return new(big.Int).Add(v, big.NewInt(1)).String()
+	case 3:
+		return new(big.Int).Sub(v, big.NewInt(1)).String()
+	case 4, 5, 6:
+		// the midpoint to the next double and the integers beside it
+		m := new(big.Int).Add(v, exact(math.Nextafter(f, math.Inf(1))))
+		m.Rsh(m, 1)
+		return m.Add(m, big.NewInt(int64(r.Intn(3)-1))).String()
+	case 7:
+		return "1" + strings.Repeat("0", 19+r.Intn(15))
+	default:
+		return string(byte('1'+r.Intn(9))) + g.digits(18+r.Intn(5))
+	}
+}
+
 func (g *gen) literalText() (string, string) {
 	r := g.r
-	switch r.Intn(10) {
+	switch r.Intn(13) {
+	case 10, 11, 12:
+		return g.bigDecimalLiteral(), "lit-big-decimal"
 	case 0, 1, 2:
 		s := g.unsignedDecimal()
 		// a leading zero followed by a digit is the legacy octal form, not a decimal literal
@@ -685,13 +893,13 @@ func literalSafe(s string) bool {
 func (g *gen) caseStr(f float64, bucket string) {
 	how, intlit := g.setXk(f, bucket == "int-literal" || bucket == "pinned-intlit")
 	res, show := g.strRes("String(x)")
-	same := g.boolRes(`(function(){var a = String(x); return a === ''+x && a === x.toString() && a === x.toString(10) && a === x.toString(undefined) && a === [x].join() && a === new Number(x).toString() && a === (x).toPrecision() && a === String(new Number(x))})()`)
+	same := g.boolRes(`(function(){var a = String(x); return a === ''+x && a === x.toString() && a === x.toString(10) && a === x.toString(undefined) && a === [x].join() && a === new Number(x).toString() && a === (x).toPrecision() && a === String(new Number(x)) && a === x.toPrecision(undefined) && a === x.toPrecision(void 0) && a === x.toString(void 0) && x.toExponential(undefined) === x.toExponential() && (function(v, d){return v.toExponential(d)})(x) === x.toExponential() && x.toFixed(undefined) === x.toFixed() && x.toFixed() === x.toFixed(0) && (function(v, d){return v.toFixed(d)})(x) === x.toFixed(0)})()`)
 	back, ok, bshow := g.numRes("Number(String(x))")
 	if !ok {
 		back = 0x7FF0000000000001 // never equal to a model value
 	}
 	g.env.Add(fmt.Sprintf("CStr %s %s %s %s %d", Cdouble(f), Cbool(intlit), res, Cbool(same), back),
-		fmt.Sprintf("str %s; String(x) -> %s ; all ToString routes agree=%v ; Number(String(x)) -> %s", how, show, same, bshow), "tostring/"+bucket, nontrivialDouble(f))
+		fmt.Sprintf("str %s; String(x) -> %s ; all ToString routes and explicit-undefined/no-argument calls agree=%v ; Number(String(x)) -> %s", how, show, same, bshow), "tostring/"+bucket, nontrivialDouble(f))
 }
 
 func nontrivialDouble(f float64) bool {
@@ -760,8 +968,8 @@ func (g *gen) caseExp(f float64, bucket string) {
 	how := g.setX(f)
 	js, v := g.digitsArg(0, 20)
 	cq := "(Some " + Cz(int64(v)) + ")"
-	if g.r.Intn(8) == 0 {
-		js, cq = Pick(g.r, []string{"", "undefined"}), "None"
+	if g.r.Intn(4) == 0 {
+		js, cq = Pick(g.r, []string{"", "undefined", "undefined", "void 0", "[][0]", "(function(d){return d})()"}), "None"
 	}
 	res, show := g.strRes("x.toExponential(" + js + ")")
 	g.env.Add(fmt.Sprintf("CExp %s %s %s", Cdouble(f), cq, res),
@@ -776,29 +984,37 @@ func (g *gen) casePrec(f float64, bucket string) {
 		fmt.Sprintf("prec %s; x.toPrecision(%s) -> %s", how, js, show), "toprecision/"+bucket, true)
 }
 
-func (g *gen) caseNum(s, bucket string) {
-	Must(g.vm.Set("s", s))
+func (g *gen) caseNum(s, bucket string) { g.caseNumU(Units(s), bucket) }
+
+func (g *gen) caseNumU(u []uint16, bucket string) {
+	how := g.setS(u)
 	bits, ok, show := g.numRes("Number(s)")
 	if !ok {
 		bits = 0x7FF0000000000001
 	}
-	same := g.boolRes(`(function(){function eq(a,b){return (a!==a && b!==b) || (a===b && 1/a===1/b)} var a = Number(s); return eq(a, +s) && eq(a, s*1) && eq(a, s/1) && eq(a, s-0) && eq(a, -(-s)) && eq(a, new Number(s).valueOf()) && eq(a, (function(x){return +x})(s)) && eq(a, [s]*1) && eq(isNaN(s), a!==a) && eq(s == 0, a === 0) && eq(s < 0, a < 0) && eq(s >= 1, a >= 1) && eq(1/a, 1/s)})()`)
-	g.env.Add(fmt.Sprintf("CNum %s %d %s", Cstr(s), bits, Cbool(same)),
-		fmt.Sprintf("num Number(%s) -> %s ; +s, s*1, s/1, s-0, -(-s), new Number(s), [s]*1, 1/s, comparisons agree=%v", strconv.QuoteToASCII(s), show, same), "tonumber/"+bucket, len(s) > 2)
+	same := g.boolRes(`(function(){function eq(a,b){return (a!==a && b!==b) || (a===b && 1/a===1/b)} var a = Number(s); return eq(a, +s) && eq(a, s*1) && eq(a, s/1) && eq(a, s-0) && eq(a, -(-s)) && eq(a, new Number(s).valueOf()) && eq(a, (function(x){return +x})(s)) && eq(a, [s]*1) && eq(isNaN(s), a!==a) && eq(isFinite(s), a-a===0) && eq(s == 0, a === 0) && eq(s == a, a === a) && eq(s < 0, a < 0) && eq(s >= 1, a >= 1) && eq(0 > s, 0 > a) && eq(1/a, 1/s)})()`)
+	g.env.Add(fmt.Sprintf("CNum %s %d %s", Cunits(u), bits, Cbool(same)),
+		fmt.Sprintf("num s=%s (%s); Number(s) -> %s ; +s, s*1, s/1, s-0, -(-s), new Number(s), [s]*1, 1/s, isNaN, isFinite, ==, <, >= agree=%v", showUnits(u), how, show, same), "tonumber/"+bucket, len(u) > 2)
 }
 
-func (g *gen) casePFloat(s, bucket string) {
-	Must(g.vm.Set("s", s))
+func (g *gen) casePFloat(s, bucket string) { g.casePFloatU(Units(s), bucket) }
+
+func (g *gen) casePFloatU(u []uint16, bucket string) {
+	how := g.setS(u)
 	bits, ok, show := g.numRes("parseFloat(s)")
 	if !ok {
 		bits = 0x7FF0000000000001
 	}
-	g.env.Add(fmt.Sprintf("CPFloat %s %d", Cstr(s), bits),
-		fmt.Sprintf("pfloat parseFloat(%s) -> %s", strconv.QuoteToASCII(s), show), "parsefloat/"+bucket, len(s) > 2)
+	g.env.Add(fmt.Sprintf("CPFloat %s %d", Cunits(u), bits),
+		fmt.Sprintf("pfloat s=%s (%s); parseFloat(s) -> %s", showUnits(u), how, show), "parsefloat/"+bucket, len(u) > 2)
 }
 
 func (g *gen) casePInt(s, radixJS, radixCoq, bucket string) {
-	Must(g.vm.Set("s", s))
+	g.casePIntU(Units(s), radixJS, radixCoq, bucket)
+}
+
+func (g *gen) casePIntU(u []uint16, radixJS, radixCoq, bucket string) {
+	how := g.setS(u)
 	src := "parseInt(s)"
 	if radixJS != "" {
 		src = "parseInt(s, " + radixJS + ")"
@@ -807,8 +1023,8 @@ func (g *gen) casePInt(s, radixJS, radixCoq, bucket string) {
 	if !ok {
 		bits = 0x7FF0000000000001
 	}
-	g.env.Add(fmt.Sprintf("CPInt %s %s %d", Cstr(s), radixCoq, bits),
-		fmt.Sprintf("pint s=%s; %s -> %s", strconv.QuoteToASCII(s), src, show), "parseint/"+bucket, len(s) > 1)
+	g.env.Add(fmt.Sprintf("CPInt %s %s %d", Cunits(u), radixCoq, bits),
+		fmt.Sprintf("pint s=%s (%s); %s -> %s", showUnits(u), how, src, show), "parseint/"+bucket, len(u) > 1)
 }
 
 func (g *gen) caseLit(s, bucket string) {
@@ -865,7 +1081,7 @@ func (g *gen) caseChain(kind int, f float64, bucket string) {
 
 func runC06(env *Env) {
 	env.Import = "Otto.C06.Corr"
-	env.Rule = "doubles: random bit patterns, subnormals, 10^k and 2^k with neighbours, exact decimal ties, the 1e21/1e-6/1e-7 thresholds, integers around 2^53/2^63/2^64, short and 17-digit decimals; each printed by String/toString(radix)/toFixed/toExponential/toPrecision over all digit counts and radixes plus out-of-range arguments. texts: StrDecimalLiteral grammar, exact/shortest/17-digit texts of doubles, exact midpoints between adjacent doubles and texts a hair off them, hex, a pool of near misses and random mutations of all of these, zero in every spelling and sign, decimal integer strings of 1..25 digits around the int64 edge, overflowing decimals with and without trailing junk, fed to Number()/unary plus/parseFloat/parseInt (every radix, boundary and long digit strings, junk suffixes, first non-digit at the radix edge)/program source; print-then-parse chains inside one script; all on one long-lived runtime. non-trivial = distinct case other than a small integer value resp. a text of more than two characters"
+	env.Rule = "doubles: random bit patterns, subnormals, 10^k and 2^k with neighbours, exact decimal ties, the 1e21/1e-6/1e-7 thresholds, integers around 2^53/2^63/2^64, short and 17-digit decimals; each printed by String/toString(radix)/toFixed/toExponential/toPrecision over all digit counts and radixes plus out-of-range arguments. texts: StrDecimalLiteral grammar, exact/shortest/17-digit texts of doubles, exact midpoints between adjacent doubles and texts a hair off them, hex, a pool of near misses and random mutations of all of these, zero in every spelling and sign, decimal integer strings of 1..25 digits around the int64 edge, overflowing decimals with and without trailing junk, code-unit level texts (every StrWhiteSpaceChar around a numeral, units whose low byte is an ASCII numeral character, other scripts' digits, lone surrogates) bound as host string, literal, String.fromCharCode and concatenations; fed to Number()/unary plus/arithmetic/==/relational/parseFloat/parseInt (every radix, boundary and long digit strings, junk suffixes, first non-digit at the radix edge)/program source; print-then-parse chains inside one script; all on one long-lived runtime. non-trivial = distinct case other than a small integer value resp. a text of more than two characters"
 	g := &gen{env: env, vm: otto.New(), r: env.Rng}
 	r := env.Rng
 
@@ -933,6 +1149,18 @@ func runC06(env *Env) {
 	for _, s := range []string{"1e1000", "1_0", "0x1p3", "Infin", "12inf"} {
 		g.casePFloat(s, "pinned")
 	}
+	for _, l := range []string{"9223372036854775808", "99999999999999999999", "142348324737356550000", "1000000000000000000000000000000", "9223372036854775809", "9223372036854776833", "18446744073709551615"} {
+		g.caseLit(l, "pinned-big-decimal")
+	}
+	for _, u := range [][]uint16{{0x131}, {0xA0, 0x37, 0xFEFF}, {0x2028, '-', '1', '.', '5', 0x3000}, {0x3531, 0x2e65, 0x3233}, {0xD800, '1'}, {0xFF11}} {
+		RunJS(g.vm, "var s = String.fromCharCode("+codeList(u)+");")
+		bits, ok, show := g.numRes("Number(s)")
+		if !ok {
+			bits = 0x7FF0000000000001
+		}
+		same := g.boolRes("(function(){function eq(a,b){return (a!==a && b!==b) || (a===b && 1/a===1/b)} var a = Number(s); return eq(a, +s) && eq(a, s*1) && eq(a, s-0) && eq(isNaN(s), a!==a) && eq(s == 0, a === 0) && eq(s < 1, a < 1)})()")
+		env.Add(fmt.Sprintf("CNum %s %d %s", Cunits(u), bits, Cbool(same)), fmt.Sprintf("pinned num s=%s (fromCharCode); Number(s) -> %s ; other routes agree=%v", showUnits(u), show, same), "tonumber/pinned-units", true)
+	}
 	g.caseLit("0x8000000000000401", "pinned")
 	g.caseLit("01000000000000000000000", "pinned")
 
@@ -970,9 +1198,19 @@ func runC06(env *Env) {
 			}
 			g.casePrec(f, b)
 		case k < 70:
+			if r.Intn(4) == 0 {
+				u, b := g.unitText()
+				g.caseNumU(u, b)
+				break
+			}
 			s, b := g.numberText()
 			g.caseNum(s, b)
 		case k < 80:
+			if r.Intn(6) == 0 {
+				u, b := g.unitText()
+				g.casePFloatU(u, b)
+				break
+			}
 			s, b := g.numberText()
 			switch r.Intn(8) {
 			case 0:
@@ -985,6 +1223,16 @@ func runC06(env *Env) {
 			}
 			g.casePFloat(s, b)
 		case k < 90:
+			if r.Intn(8) == 0 {
+				u, b := g.unitText()
+				rad := Pick(r, []int{0, 10, 16, 36, 2})
+				if rad == 0 {
+					g.casePIntU(u, Pick(r, []string{"", "undefined"}), "None", b)
+				} else {
+					g.casePIntU(u, strconv.Itoa(rad), "(Some "+Cdouble(float64(rad))+")", b)
+				}
+				break
+			}
 			s, rj, rc, b := g.parseIntCase()
 			g.casePInt(s, rj, rc, b)
 		case k < 94:
